@@ -105,6 +105,11 @@ def main(tier, replay=None):
                                  evo=0, modes=("dec",), invariants=inv, properties=())
         designlevel.codec_design(rep, "U_small depth1 wide dec", depth=1, caps=(1, 2, 6), leafset="wide",
                                  evo=0, modes=("dec",), invariants=inv, properties=())
+    # liveness: under weak fairness every run of the cursor machine (encode, decode, decode of evolved data) ends
+    # in "done" or "fault" -- no run of the machine loops (PROPERTY Termination, same- and evolved-schema)
+    designlevel.codec_design(rep, "U_small depth1 enc+dec, 1 evolution step: Termination (liveness, WF)", depth=1,
+                             caps=(1, 2), leafset="small", evo=1, modes=("enc", "dec"), invariants=("InBounds",),
+                             properties=(), liveness=True)
     # negative control: the implementation's original skip distance must be refuted
     r = designlevel.run_cfg("MC_Codec", designlevel.codec_cfg(
         depth=1, caps=(5,), leafset="small", evo=0, modes=("dec",), impl_skip=True,
